@@ -17,7 +17,9 @@ from gen import c12 as G
 from gen.coqfmt import HEADER, clist, cstr
 
 LANG_VALUES = ["en", "es", "fi", "sv", "id", "vi", "xx", "en-gb", "es-419", "zh-tw", "Auto", "eng", "e", "-en", "en-", "EN",
-               "en-us-nyc", "de-ch", "zz", "zz-aa", "é", ""]
+               "en-us-nyc", "de-ch", "zz", "zz-aa", "é", "",
+               # regional tags as they are usually written (upper-case region): the separator table is keyed in lower case
+               "es-MX", "de-CH", "de-LI", "el-CY", "ES-mx", "es-Mx", "tr-CY", "es-PA"]
 STYLE_VALUES = ["ClearSpeak", "SimpleSpeak", "Bogus", "clearspeak", ""]
 CODE_VALUES = ["Nemeth", "UEB", "CMU", "Vietnam", "LaTeX", "ASCIIMath", "Swedish", "Bogus", "nemeth"]
 BOOL_VALUES = ["true", "false", "True", "FALSE", "tRuE", "maybe", "1", "", "yes", " true"]
